@@ -2,12 +2,16 @@ package main
 
 func init() {
 	register("C20", &propInfo{
-		Explanation: "A3.MEAN: for every running mean of the renderer (an accumulator A with 'A = A.Add(x)' and a mean 'A.Scale(1/float64(B))') the divisor equals the number of accumulated samples on every path to every final or returned mean, including early exits (structured abstract interpretation, events = accumulations). W: every pixel write of a render worker is addressed by the worker's own pixel index (effect analysis). AM: composite objects keep the nearest hit. OL: every exported sampler option is read by library code.",
+		Explanation: "CALLAGREE: when a function hands its own parameter to a callee at one call site, no sibling call of the same callee passes a package-level constant or variable in that position (DirectionalCamera: reported and repaired). UNITNORMAL: the Normal of a collision record handed back by a transformed object is not the raw image of a vector. A3.MEAN: for every running mean of the renderer (an accumulator A with 'A = A.Add(x)' and a mean 'A.Scale(1/float64(B))') the divisor equals the number of accumulated samples on every path to every final or returned mean, including early exits (structured abstract interpretation, events = accumulations). W: every pixel write of a render worker is addressed by the worker's own pixel index (effect analysis). AM: composite objects keep the nearest hit. OL: every exported sampler option is read by library code.",
 		Trusted:     []string{"go/types and go/ast of x/tools v0.29.0", "the statement semantics modelled in checker/a3.go", "the recognition of running means by their shape (A = A.Add(x); A.Scale(1/float64(B)))"},
 		Assumptions: []string{"RayColor returns one radiance sample per call"},
 		Fixtures:    []string{"a3", "u", "w"},
 		Run:         runC20,
 		SelfTest: []Mutation{
+			{Name: "auto-framing searches with the default field of view (defect repaired in d329c16)", File: "render3d/helpers.go",
+				Old: "cam := NewCameraAt(center.Add(direction.Scale(d)), center, fov)", New: "cam := NewCameraAt(center.Add(direction.Scale(d)), center, helperFieldOfView)", Rule: "CALLAGREE", Expect: "DirectionalCamera"},
+			{Name: "transformed object hands back a stretched normal", File: "render3d/transform.go",
+				Old: "rc.Normal = m.NormalMat.MulColumn(rc.Normal).Normalize()", New: "rc.Normal = m.NormalMat.MulColumn(rc.Normal)", Rule: "UNITNORMAL", Expect: "matrixObject"},
 			{Name: "early stop without counting the sample", File: "render3d/ray_renderer.go",
 				Old: "\t\t\tnumSamples++\n\t\t\tbreak", New: "\t\t\tbreak", Rule: "A3.MEAN", Expect: "estimateColor"},
 			{Name: "early stop returns the in-loop mean", File: "render3d/ray_renderer.go",
@@ -37,4 +41,7 @@ func runC20(c *Ctx) {
 	// transformed objects hand back unit normals
 	c.runUnitNormal("UNITNORMAL", append(c.libPkgs()[3:4:4], c.fixturePkg("u")), nil)
 	c.floor("UNITNORMAL", 0)
+	// sibling calls of one callee agree on whether they pass the caller's parameter
+	c.runCallAgree("CALLAGREE", append(c.libPkgs()[3:4:4], c.fixturePkg("u")), nil)
+	c.floor("CALLAGREE", 10)
 }
